@@ -2,20 +2,32 @@ package main
 
 // C03 — unique and set indexes mirror entity state; uniqueness is enforced.
 //
-// One store "things" (base path ["u"]) wired through the exported API only:
+// Real stores wired through the exported API only:
 //
-//	name   string    unique index (non-nullable)
-//	alias  *string   unique index (nullable)
-//	roles  []string  set index with a SetChangeListener
+//	things (base path ["u"])            name   string    unique index (non-nullable)
+//	                                    alias  *string   unique index (nullable)
+//	                                    roles  []string  set index with a SetChangeListener
+//	ext    (plain child of things,      tag    string    (no index of its own)
+//	        entity path ["ext"])
 //
-// Case line:   h <vals> <tx>|<tx>|...
+// under a SCHEMA that gives every field three names: the symbol name (= index bucket name), the key
+// the entity strategy stores it under (AddSymbolWithKey) and the name the caller's FieldChecker
+// knows it by (PersistContext.WithFieldOverrides in the strategy).
 //
-//	<vals>  list of byte strings read back through ReadIndex.Read / SetReadIndex.Read after every tx
-//	<tx>    <op>,<op>,...                  one Db.Update; the first failing op aborts (rolls back) the tx
-//	<op>    c:<id>:<name>:<alias>:<roles>          Create
-//	        u:<id>:<name>:<alias>:<roles>:<chk>    Update; <chk> = * (nil checker) or a subset of "nar"
-//	                                               ("0" = checker selecting no field)
-//	        d:<id>                                 DeleteById
+// Case line:   h <vals> [<schema>] <tx>|<tx>|...
+//
+//	<vals>    list of byte strings read back through ReadIndex.Read / SetReadIndex.Read after every tx
+//	<schema>  eleven names: name sym+key+chk, alias sym+key+chk, roles sym+key+chk, tag key+chk
+//	          (absent: every field is known by one name: name, alias, roles, tag)
+//	<tx>      <op>,<op>,...                  one Db.Update; the first failing op aborts (rolls back) the tx
+//	<op>      c:<id>:<name>:<alias>:<roles>               things.Create
+//	          C:<id>:<name>:<alias>:<roles>:<tag>         ext.Create
+//	          u:<id>:<name>:<alias>:<roles>:<chk>         things.Update
+//	          U:<id>:<name>:<alias>:<roles>:<tag>:<chk>   ext.Update
+//	          d:<id>  /  D:<id>                           things.DeleteById / ext.DeleteById
+//	<chk>     * (nil checker) or letters, each adding one name to a MapFieldChecker:
+//	          n a r t = caller-side name of name/alias/roles/tag, N A R T = stored key,
+//	          x y z = symbol name of name/alias/roles, anything else (0) = nothing
 //
 // Output line: one record per tx, joined by "|":
 //
@@ -40,6 +52,112 @@ func init() {
 	register("c03", &propHarness{gen: c03Gen, exec: c03Exec})
 }
 
+// ---------------------------------------------------------------------------------- schema
+
+type c03Names struct{ sym, key, chk string }
+
+type c03Schema struct {
+	name, alias, roles c03Names
+	tagKey, tagChk     string
+}
+
+var c03Plain = c03Schema{
+	name: c03Names{"name", "name", "name"}, alias: c03Names{"alias", "alias", "alias"},
+	roles: c03Names{"roles", "roles", "roles"}, tagKey: "tag", tagChk: "tag",
+}
+
+// the schema variants of the generator (roles: AddSetSymbol offers no separate key)
+var c03Schemas = []c03Schema{
+	c03Plain,
+	// field overrides only: the caller names the fields differently
+	{name: c03Names{"name", "name", "displayName"}, alias: c03Names{"alias", "alias", "nick"},
+		roles: c03Names{"roles", "roles", "roleAttributes"}, tagKey: "tag", tagChk: "tag"},
+	// symbols registered under another name than the stored key
+	{name: c03Names{"name", "nm", "nm"}, alias: c03Names{"alias", "al", "al"},
+		roles: c03Names{"roles", "roles", "roles"}, tagKey: "tag", tagChk: "tag"},
+	// all three differ; alias' caller-side name equals its symbol name but not its key
+	{name: c03Names{"name", "nm", "displayName"}, alias: c03Names{"alias", "al", "alias"},
+		roles: c03Names{"roles", "roles", "roleAttributes"}, tagKey: "tag", tagChk: "label"},
+	// crossed overrides: the caller's "alias" is the stored name and vice versa
+	{name: c03Names{"name", "name", "alias"}, alias: c03Names{"alias", "alias", "name"},
+		roles: c03Names{"roles", "roles", "roles"}, tagKey: "tag", tagChk: "tag"},
+	// crossed keys: symbol `name` reads the key "alias" and symbol `alias` the key "name"
+	{name: c03Names{"name", "alias", "alias"}, alias: c03Names{"alias", "name", "name"},
+		roles: c03Names{"roles", "roles", "roles"}, tagKey: "tag", tagChk: "tag"},
+}
+
+func (s c03Schema) wire() string {
+	return csList([]string{s.name.sym, s.name.key, s.name.chk, s.alias.sym, s.alias.key, s.alias.chk,
+		s.roles.sym, s.roles.key, s.roles.chk, s.tagKey, s.tagChk})
+}
+
+func c03ParseSchema(w string) (c03Schema, bool) {
+	f := csParseList(w)
+	if len(f) != 11 {
+		return c03Schema{}, false
+	}
+	return c03Schema{name: c03Names{f[0], f[1], f[2]}, alias: c03Names{f[3], f[4], f[5]},
+		roles: c03Names{f[6], f[7], f[8]}, tagKey: f[9], tagChk: f[10]}, true
+}
+
+// checkerNames: the names a checker string puts into the MapFieldChecker
+func (s c03Schema) checkerNames(chk string) []string {
+	var names []string
+	for _, c := range chk {
+		switch c {
+		case 'n':
+			names = append(names, s.name.chk)
+		case 'a':
+			names = append(names, s.alias.chk)
+		case 'r':
+			names = append(names, s.roles.chk)
+		case 't':
+			names = append(names, s.tagChk)
+		case 'N':
+			names = append(names, s.name.key)
+		case 'A':
+			names = append(names, s.alias.key)
+		case 'R':
+			names = append(names, s.roles.key)
+		case 'T':
+			names = append(names, s.tagKey)
+		case 'x':
+			names = append(names, s.name.sym)
+		case 'y':
+			names = append(names, s.alias.sym)
+		case 'z':
+			names = append(names, s.roles.sym)
+		}
+	}
+	return names
+}
+
+func (s c03Schema) checker(chk string) boltz.FieldChecker {
+	if chk == "*" {
+		return nil
+	}
+	m := boltz.MapFieldChecker{}
+	for _, n := range s.checkerNames(chk) {
+		m[n] = struct{}{}
+	}
+	return m
+}
+
+// selects: would a checker with these letters write the field whose caller-side name is `chkName`
+func (s c03Schema) selects(chk string, chkName string) bool {
+	if chk == "*" {
+		return true
+	}
+	for _, n := range s.checkerNames(chk) {
+		if n == chkName {
+			return true
+		}
+	}
+	return false
+}
+
+// ---------------------------------------------------------------------------------- entities
+
 type c03Thing struct {
 	Id    string
 	Name  string
@@ -51,45 +169,114 @@ func (e *c03Thing) GetId() string         { return e.Id }
 func (e *c03Thing) SetId(id string)       { e.Id = id }
 func (e *c03Thing) GetEntityType() string { return "things" }
 
-type c03Strategy struct{}
+type c03Ext struct {
+	c03Thing
+	Tag string
+}
+
+type c03Strategy struct{ sch c03Schema }
 
 func (c03Strategy) NewEntity() *c03Thing { return &c03Thing{} }
-func (c03Strategy) FillEntity(e *c03Thing, b *boltz.TypedBucket) {
-	e.Name = b.GetStringWithDefault("name", "")
-	e.Alias = b.GetString("alias")
-	e.Roles = b.GetStringList("roles")
+func (s c03Strategy) FillEntity(e *c03Thing, b *boltz.TypedBucket) {
+	e.Name = b.GetStringWithDefault(s.sch.name.key, "")
+	e.Alias = b.GetString(s.sch.alias.key)
+	e.Roles = b.GetStringList(s.sch.roles.key)
 }
-func (c03Strategy) PersistEntity(e *c03Thing, ctx *boltz.PersistContext) {
-	ctx.SetString("name", e.Name)
-	ctx.SetStringP("alias", e.Alias)
-	ctx.SetStringList("roles", e.Roles)
+func (s c03Strategy) PersistEntity(e *c03Thing, ctx *boltz.PersistContext) {
+	overrides := map[string]string{}
+	for _, n := range []c03Names{s.sch.name, s.sch.alias, s.sch.roles} {
+		if n.chk != n.key {
+			overrides[n.key] = n.chk
+		}
+	}
+	if len(overrides) > 0 {
+		ctx.WithFieldOverrides(overrides)
+	}
+	ctx.SetString(s.sch.name.key, e.Name)
+	ctx.SetStringP(s.sch.alias.key, e.Alias)
+	ctx.SetStringList(s.sch.roles.key, e.Roles)
+}
+
+// the child strategy, the way boltz/manager_store_test.go writes one
+type c03ExtStrategy struct {
+	sch    c03Schema
+	parent *boltz.BaseStore[*c03Thing]
+}
+
+func (s *c03ExtStrategy) NewEntity() *c03Ext { return &c03Ext{} }
+func (s *c03ExtStrategy) FillEntity(e *c03Ext, b *boltz.TypedBucket) {
+	_, err := s.parent.LoadEntity(b.Tx(), e.Id, &e.c03Thing)
+	b.SetError(err)
+	e.Tag = b.GetStringWithDefault(s.sch.tagKey, "")
+}
+func (s *c03ExtStrategy) PersistEntity(e *c03Ext, ctx *boltz.PersistContext) {
+	s.parent.GetEntityStrategy().PersistEntity(&e.c03Thing, ctx.GetParentContext())
+	if s.sch.tagChk != s.sch.tagKey {
+		ctx.WithFieldOverrides(map[string]string{s.sch.tagKey: s.sch.tagChk})
+	}
+	ctx.SetString(s.sch.tagKey, e.Tag)
 }
 
 type c03Stores struct {
+	sch      c03Schema
 	things   *boltz.BaseStore[*c03Thing]
+	ext      *boltz.BaseStore[*c03Ext]
 	idxName  boltz.ReadIndex
 	idxAlias boltz.ReadIndex
 	idxRoles boltz.SetReadIndex
 	log      []string
 }
 
-func c03Wire() *c03Stores {
-	s := &c03Stores{}
+func c03NotFound(id string) error { return boltz.NewNotFoundError("thing", "id", id) }
+
+func c03Wire(sch c03Schema) *c03Stores {
+	s := &c03Stores{sch: sch}
 	s.things = boltz.NewBaseStore(boltz.StoreDefinition[*c03Thing]{
-		EntityType:     "things",
-		EntityStrategy: c03Strategy{},
-		BasePath:       []string{"u"},
-		EntityNotFoundF: func(id string) error {
-			return boltz.NewNotFoundError("thing", "id", id)
-		},
+		EntityType:      "things",
+		EntityStrategy:  c03Strategy{sch: sch},
+		BasePath:        []string{"u"},
+		EntityNotFoundF: c03NotFound,
 	})
 	s.things.InitImpl(s.things)
+	s.ext = boltz.NewBaseStore(boltz.StoreDefinition[*c03Ext]{
+		EntityStrategy: &c03ExtStrategy{sch: sch, parent: s.things},
+		BasePath:       []string{"ext"},
+		Parent:         s.things,
+		ParentMapper: func(e boltz.Entity) boltz.Entity {
+			if x, ok := e.(*c03Ext); ok {
+				return &x.c03Thing
+			}
+			return e
+		},
+		EntityNotFoundF: c03NotFound,
+	})
+	s.ext.InitImpl(s.ext)
+	// update delegation: an entity with child data is handed to the child store as its stored child
+	// entity with the shared fields replaced by the caller's
+	s.things.RegisterChildStoreStrategy(&boltz.ChildStoreUpdateHandler[*c03Thing, *c03Ext]{
+		Store: s.ext,
+		Mapper: func(ctx boltz.MutateContext, parent *c03Thing) (*c03Ext, bool) {
+			if !s.ext.IsEntityPresent(ctx.Tx(), parent.Id) {
+				return nil, false
+			}
+			child, found, _ := s.ext.FindById(ctx.Tx(), parent.Id)
+			if !found || child == nil {
+				return nil, false
+			}
+			child.c03Thing = *parent
+			return child, true
+		},
+	})
+
 	s.things.AddIdSymbol("id", ast.NodeTypeString)
-	symName := s.things.AddSymbol("name", ast.NodeTypeString)
+	symName := s.things.AddSymbolWithKey(sch.name.sym, ast.NodeTypeString, sch.name.key)
 	s.idxName = s.things.AddUniqueIndex(symName)
-	symAlias := s.things.AddSymbol("alias", ast.NodeTypeString)
+	symAlias := s.things.AddSymbolWithKey(sch.alias.sym, ast.NodeTypeString, sch.alias.key)
 	s.idxAlias = s.things.AddNullableUniqueIndex(symAlias)
-	symRoles := s.things.AddSetSymbol("roles", ast.NodeTypeString)
+	if sch.roles.sym != sch.roles.key {
+		panic("the exported API has no set symbol with a separate key")
+	}
+	symRoles := s.things.AddSetSymbol(sch.roles.sym, ast.NodeTypeString)
 	s.idxRoles = s.things.AddSetIndex(symRoles)
 	s.idxRoles.AddListener(func(_ boltz.MutateContext, rowId []byte, old []boltz.FieldTypeAndValue, new []boltz.FieldTypeAndValue, _ errorz.ErrorHolder) {
 		f := func(xs []boltz.FieldTypeAndValue) string {
@@ -101,57 +288,62 @@ func c03Wire() *c03Stores {
 		}
 		s.log = append(s.log, toWire(string(rowId))+":"+f(old)+":"+f(new))
 	})
+	s.things.GrantSymbols(s.ext)
+	s.ext.AddSymbol(sch.tagKey, ast.NodeTypeString)
 	return s
 }
 
 type c03Op struct {
-	kind  byte
+	kind  byte // c C u U d D
 	id    string
 	name  string
 	alias *string
 	roles []string
+	tag   string
 	chk   string
 }
 
 func c03ParseOp(s string) c03Op {
 	f := strings.Split(s, ":")
 	op := c03Op{kind: f[0][0], id: fromWire(f[1])}
-	if op.kind == 'c' || op.kind == 'u' {
+	switch op.kind {
+	case 'c', 'u', 'C', 'U':
 		op.name = fromWire(f[2])
 		op.alias = csParseOpt(f[3])
 		op.roles = csParseList(f[4])
 	}
-	if op.kind == 'u' {
+	switch op.kind {
+	case 'u':
 		op.chk = f[5]
+	case 'C':
+		op.tag = fromWire(f[5])
+	case 'U':
+		op.tag = fromWire(f[5])
+		op.chk = f[6]
 	}
 	return op
 }
 
-func c03Checker(chk string) boltz.FieldChecker {
-	if chk == "*" {
-		return nil
-	}
-	m := boltz.MapFieldChecker{}
-	if strings.Contains(chk, "n") {
-		m["name"] = struct{}{}
-	}
-	if strings.Contains(chk, "a") {
-		m["alias"] = struct{}{}
-	}
-	if strings.Contains(chk, "r") {
-		m["roles"] = struct{}{}
-	}
-	return m
+func (op c03Op) thing() c03Thing {
+	return c03Thing{Id: op.id, Name: op.name, Alias: op.alias, Roles: append([]string{}, op.roles...)}
 }
 
 func (s *c03Stores) apply(ctx boltz.MutateContext, op c03Op) error {
 	switch op.kind {
 	case 'c':
-		return s.things.Create(ctx, &c03Thing{Id: op.id, Name: op.name, Alias: op.alias, Roles: append([]string{}, op.roles...)})
+		t := op.thing()
+		return s.things.Create(ctx, &t)
+	case 'C':
+		return s.ext.Create(ctx, &c03Ext{c03Thing: op.thing(), Tag: op.tag})
 	case 'u':
-		return s.things.Update(ctx, &c03Thing{Id: op.id, Name: op.name, Alias: op.alias, Roles: append([]string{}, op.roles...)}, c03Checker(op.chk))
+		t := op.thing()
+		return s.things.Update(ctx, &t, s.sch.checker(op.chk))
+	case 'U':
+		return s.ext.Update(ctx, &c03Ext{c03Thing: op.thing(), Tag: op.tag}, s.sch.checker(op.chk))
 	case 'd':
 		return s.things.DeleteById(ctx, op.id)
+	case 'D':
+		return s.ext.DeleteById(ctx, op.id)
 	}
 	panic("bad op")
 }
@@ -173,23 +365,31 @@ func (s *c03Stores) reads(tx *bbolt.Tx, vals []string) string {
 
 func c03Exec(line string) string {
 	f := fields(line)
-	if len(f) != 3 || f[0] != "h" {
+	if (len(f) != 3 && len(f) != 4) || f[0] != "h" {
 		return "bad-case"
+	}
+	sch := c03Plain
+	if len(f) == 4 {
+		var ok bool
+		if sch, ok = c03ParseSchema(f[2]); !ok {
+			return "bad-case"
+		}
 	}
 	vals := csParseList(f[1])
 	d := csOpenDb()
 	defer d.close()
-	s := c03Wire()
+	s := c03Wire(sch)
 	if err := d.db.Update(nil, func(ctx boltz.MutateContext) error {
 		h := &errorz.ErrorHolderImpl{}
 		s.things.InitializeIndexes(ctx.Tx(), h)
+		s.ext.InitializeIndexes(ctx.Tx(), h)
 		return h.Err
 	}); err != nil {
 		return "init-failed " + err.Error()
 	}
 	var recs []string
 	prev := ""
-	for _, txs := range strings.Split(f[2], "|") {
+	for _, txs := range strings.Split(f[len(f)-1], "|") {
 		var ops []c03Op
 		for _, o := range strings.Split(txs, ",") {
 			ops = append(ops, c03ParseOp(o))
@@ -234,22 +434,21 @@ func c03Exec(line string) string {
 var c03Ids = []string{"a", "b", "c", "d"}
 var c03Vals = []string{"x", "y", "zq"}
 var c03RoleVals = []string{"r", "sq", "x"}
+var c03Tags = []string{"t", "u"}
 
 func c03FmtOp(op c03Op) string {
+	base := fmt.Sprintf("%c:%s:%s:%s:%s", op.kind, toWire(op.id), toWire(op.name), csOpt(op.alias), csList(op.roles))
 	switch op.kind {
 	case 'c':
-		return fmt.Sprintf("c:%s:%s:%s:%s", toWire(op.id), toWire(op.name), csOpt(op.alias), csList(op.roles))
+		return base
+	case 'C':
+		return base + ":" + toWire(op.tag)
 	case 'u':
-		return fmt.Sprintf("u:%s:%s:%s:%s:%s", toWire(op.id), toWire(op.name), csOpt(op.alias), csList(op.roles), op.chk)
+		return base + ":" + op.chk
+	case 'U':
+		return base + ":" + toWire(op.tag) + ":" + op.chk
 	}
-	return "d:" + toWire(op.id)
-}
-
-func c03GenVal(r *rng, vals []string) string {
-	if r.chance(1, 14) {
-		return ""
-	}
-	return pick(r, vals)
+	return fmt.Sprintf("%c:%s", op.kind, toWire(op.id))
 }
 
 func c03GenAlias(r *rng, vals []string) *string { return csGenAlias(r, vals) }
@@ -267,19 +466,28 @@ func c03GenRoles(r *rng, vals []string) []string {
 	return rs
 }
 
+// checkers by the caller-side names ("0": a checker selecting nothing)
 var c03Chks = []string{"*", "*", "*", "n", "a", "r", "na", "nr", "ar", "nar", "0"}
 
+// … and, where the schema distinguishes them, by the stored key or the symbol name instead
+var c03OddChks = []string{"N", "A", "R", "x", "y", "z", "NAR", "xyz", "Nr", "xa", "nT", "t", "nt", "T"}
+
 // c03Shadow is the generator's rough idea of the entity table (used only to bias choices:
-// which ids exist, which values are taken); it does not have to be exact.
+// which ids exist, which have child data, which values are taken); it does not have to be exact.
 type c03Shadow struct {
+	sch  c03Schema
 	ents map[string]*c03Thing
+	ext  map[string]bool
 }
 
 func (sh *c03Shadow) clone() *c03Shadow {
-	c := &c03Shadow{ents: map[string]*c03Thing{}}
+	c := &c03Shadow{sch: sh.sch, ents: map[string]*c03Thing{}, ext: map[string]bool{}}
 	for k, v := range sh.ents {
 		cp := *v
 		c.ents[k] = &cp
+	}
+	for k := range sh.ext {
+		c.ext[k] = true
 	}
 	return c
 }
@@ -299,42 +507,47 @@ func (sh *c03Shadow) taken(id, name string, alias *string) bool {
 	return false
 }
 
+func c03RolesOk(rs []string) bool {
+	for _, r := range rs {
+		if r == "" {
+			return false
+		}
+	}
+	return true
+}
+
 // apply returns false when the shadow expects the operation to fail
 func (sh *c03Shadow) apply(op c03Op) bool {
 	switch op.kind {
-	case 'c':
-		if op.id == "" || sh.ents[op.id] != nil || op.name == "" || sh.taken(op.id, op.name, op.alias) {
+	case 'c', 'C':
+		if op.id == "" || op.name == "" || sh.taken(op.id, op.name, op.alias) || !c03RolesOk(op.roles) {
 			return false
 		}
-		for _, r := range op.roles {
-			if r == "" {
-				return false
-			}
+		if op.kind == 'c' && sh.ents[op.id] != nil || op.kind == 'C' && sh.ext[op.id] {
+			return false
 		}
 		sh.ents[op.id] = &c03Thing{Id: op.id, Name: op.name, Alias: op.alias, Roles: op.roles}
+		if op.kind == 'C' {
+			sh.ext[op.id] = true
+		}
 		return true
-	case 'u':
+	case 'u', 'U':
 		old := sh.ents[op.id]
-		if old == nil {
+		if old == nil || op.kind == 'U' && !sh.ext[op.id] {
 			return false
 		}
 		e := *old
-		if op.chk == "*" || strings.Contains(op.chk, "n") {
+		if sh.sch.selects(op.chk, sh.sch.name.chk) {
 			e.Name = op.name
 		}
-		if op.chk == "*" || strings.Contains(op.chk, "a") {
+		if sh.sch.selects(op.chk, sh.sch.alias.chk) {
 			e.Alias = op.alias
 		}
-		if op.chk == "*" || strings.Contains(op.chk, "r") {
+		if sh.sch.selects(op.chk, sh.sch.roles.chk) {
 			e.Roles = op.roles
 		}
-		if e.Name == "" || sh.taken(op.id, e.Name, e.Alias) {
+		if e.Name == "" || sh.taken(op.id, e.Name, e.Alias) || !c03RolesOk(e.Roles) {
 			return false
-		}
-		for _, r := range e.Roles {
-			if r == "" {
-				return false
-			}
 		}
 		sh.ents[op.id] = &e
 		return true
@@ -343,13 +556,14 @@ func (sh *c03Shadow) apply(op c03Op) bool {
 		return false
 	}
 	delete(sh.ents, op.id)
+	delete(sh.ext, op.id)
 	return true
 }
 
-func (sh *c03Shadow) pickId(r *rng, ids []string, wantLive bool) string {
+func (sh *c03Shadow) pickId(r *rng, ids []string, want func(id string) bool) string {
 	var pool []string
 	for _, id := range ids {
-		if (sh.ents[id] != nil) == wantLive {
+		if want(id) {
 			pool = append(pool, id)
 		}
 	}
@@ -377,28 +591,66 @@ func (sh *c03Shadow) pickName(r *rng, id string, vals []string) string {
 	return pick(r, pool)
 }
 
-func c03GenOp(r *rng, sh *c03Shadow, ids, vals, roleVals []string) c03Op {
+// c03GenOp: layered = false gives the operations of the parent store only
+func c03GenOp(r *rng, sh *c03Shadow, ids, vals, roleVals []string, layered bool) c03Op {
 	blank := r.chance(1, 80)
+	live := func(id string) bool { return sh.ents[id] != nil }
 	k := r.intn(20)
 	if len(sh.ents) == 0 && r.chance(5, 6) {
 		k = 0
-	} else if len(sh.ents) >= len(ids) && k < 6 && r.chance(3, 4) {
+	} else if len(sh.ents) >= len(ids) && k < 6 && r.chance(3, 4) && !(layered && r.chance(1, 3)) {
 		k = 6 + r.intn(14)
 	}
+	viaChild := layered && r.chance(2, 5)
 	switch {
 	case k < 6:
-		id := sh.pickId(r, ids, false)
-		if blank {
-			id = ""
+		op := c03Op{kind: 'c'}
+		if viaChild {
+			// a fresh id, or (half of the time) an existing plain parent entity
+			op.kind, op.tag = 'C', pick(r, c03Tags)
+			if r.chance(1, 2) {
+				op.id = sh.pickId(r, ids, func(id string) bool { return live(id) && !sh.ext[id] })
+			} else {
+				op.id = sh.pickId(r, ids, func(id string) bool { return !live(id) })
+			}
+		} else {
+			op.id = sh.pickId(r, ids, func(id string) bool { return !live(id) })
 		}
-		return c03Op{kind: 'c', id: id, name: sh.pickName(r, id, vals), alias: c03GenAlias(r, vals), roles: c03GenRoles(r, roleVals)}
+		if blank {
+			op.id = ""
+		}
+		op.name, op.alias, op.roles = sh.pickName(r, op.id, vals), c03GenAlias(r, vals), c03GenRoles(r, roleVals)
+		if old := sh.ents[op.id]; old != nil && r.chance(1, 4) {
+			// re-create over the parent with a value it already has
+			switch r.intn(3) {
+			case 0:
+				op.name = old.Name
+			case 1:
+				op.alias = old.Alias
+			default:
+				op.roles = append([]string{}, old.Roles...)
+			}
+		}
+		return op
 	case k < 16:
-		id := sh.pickId(r, ids, true)
-		if blank {
-			id = ""
+		op := c03Op{kind: 'u', chk: pick(r, c03Chks)}
+		if viaChild {
+			op.kind, op.tag = 'U', pick(r, c03Tags)
+			op.id = sh.pickId(r, ids, func(id string) bool { return sh.ext[id] })
+			if op.chk != "*" && r.chance(1, 3) {
+				op.chk += "t"
+			}
+		} else {
+			op.id = sh.pickId(r, ids, live)
 		}
-		op := c03Op{kind: 'u', id: id, name: sh.pickName(r, id, vals), alias: c03GenAlias(r, vals), roles: c03GenRoles(r, roleVals), chk: pick(r, c03Chks)}
-		if old := sh.ents[id]; old != nil && r.chance(1, 5) {
+		if layered && r.chance(1, 6) {
+			op.chk = pick(r, c03OddChks)
+		}
+		if blank {
+			op.id = ""
+		}
+		op.name, op.alias, op.roles = sh.pickName(r, op.id, vals), c03GenAlias(r, vals), c03GenRoles(r, roleVals)
+		if old := sh.ents[op.id]; old != nil && r.chance(1, 5) {
 			// resubmit a current value (no-op paths of the index protocol)
 			switch r.intn(3) {
 			case 0:
@@ -411,16 +663,24 @@ func c03GenOp(r *rng, sh *c03Shadow, ids, vals, roleVals []string) c03Op {
 		}
 		return op
 	}
-	id := sh.pickId(r, ids, true)
-	if blank {
-		id = ""
+	op := c03Op{kind: 'd'}
+	if viaChild {
+		op.kind = 'D'
 	}
-	return c03Op{kind: 'd', id: id}
+	if layered && r.chance(1, 2) {
+		op.id = sh.pickId(r, ids, func(id string) bool { return sh.ext[id] })
+	} else {
+		op.id = sh.pickId(r, ids, live)
+	}
+	if blank {
+		op.id = ""
+	}
+	return op
 }
 
-func c03GenHistory(r *rng, nTx int) string {
+func c03GenHistory(r *rng, nTx int, sch c03Schema, layered bool) string {
 	ids := c03Ids[:3+r.intn(2)]
-	sh := &c03Shadow{ents: map[string]*c03Thing{}}
+	sh := &c03Shadow{sch: sch, ents: map[string]*c03Thing{}, ext: map[string]bool{}}
 	var txs []string
 	for t := 0; t < nTx; t++ {
 		n := 1 + r.intn(4)
@@ -431,7 +691,7 @@ func c03GenHistory(r *rng, nTx int) string {
 		work := sh.clone()
 		okTx := true
 		for i := 0; i < n; i++ {
-			op := c03GenOp(r, work, ids, c03Vals, c03RoleVals)
+			op := c03GenOp(r, work, ids, c03Vals, c03RoleVals, layered)
 			ops = append(ops, c03FmtOp(op))
 			if okTx && !work.apply(op) {
 				okTx = false
@@ -449,20 +709,44 @@ var c03ReadVals = csList([]string{"", "x", "y", "zq", "z", "r", "sq", "s", "a"})
 
 func c03Gen(tier string, seed uint64, out *bufio.Writer) {
 	r := newRng(seed)
-	n := 1500
+	n := 1800
 	if tier == "thorough" {
-		n = 20000
+		n = 24000
 	}
 	for i := 0; i < n; i++ {
 		nTx := 5 + r.intn(36)
 		if tier != "thorough" {
 			nTx = 5 + r.intn(20)
 		}
-		fmt.Fprintf(out, "h %s %s\n", c03ReadVals, c03GenHistory(r, nTx))
+		if i%3 == 0 {
+			// the single store under the one-name schema
+			fmt.Fprintf(out, "h %s %s\n", c03ReadVals, c03GenHistory(r, nTx, c03Plain, false))
+		} else {
+			// parent + child store under a schema variant
+			sch := c03Schemas[r.intn(len(c03Schemas))]
+			fmt.Fprintf(out, "h %s %s %s\n", c03ReadVals, sch.wire(), c03GenHistory(r, nTx, sch, true))
+		}
 	}
 	if tier == "thorough" {
 		c03GenExhaustive(out)
+		c03GenExhaustiveLayered(out)
 	}
+}
+
+func c03Enumerate(out *bufio.Writer, head string, alphabet []string, depth int) {
+	var rec func(prefix []string, n int)
+	rec = func(prefix []string, n int) {
+		if len(prefix) > 0 {
+			fmt.Fprintf(out, "%s %s\n", head, strings.Join(prefix, "|"))
+		}
+		if n == 0 {
+			return
+		}
+		for _, a := range alphabet {
+			rec(append(prefix, a), n-1)
+		}
+	}
+	rec(nil, depth)
 }
 
 // all histories of length <= 4 (one op per tx) over 2 ids x 2 values with an 18-letter op alphabet
@@ -478,18 +762,23 @@ func c03GenExhaustive(out *bufio.Writer) {
 		}
 		alphabet = append(alphabet, c03FmtOp(c03Op{kind: 'd', id: id}))
 	}
-	vals := csList([]string{"x", "y", "q"})
-	var rec func(prefix []string, n int)
-	rec = func(prefix []string, n int) {
-		if len(prefix) > 0 {
-			fmt.Fprintf(out, "h %s %s\n", vals, strings.Join(prefix, "|"))
-		}
-		if n == 0 {
-			return
-		}
-		for _, a := range alphabet {
-			rec(append(prefix, a), n-1)
-		}
+	c03Enumerate(out, "h "+csList([]string{"x", "y", "q"}), alphabet, 4)
+}
+
+// all histories of length <= 4 over 2 ids with a 16-letter alphabet of parent / child operations, under
+// the schema in which symbol name, key and caller-side name all differ
+func c03GenExhaustiveLayered(out *bufio.Writer) {
+	var alphabet []string
+	for _, id := range []string{"a", "b"} {
+		alphabet = append(alphabet,
+			c03FmtOp(c03Op{kind: 'c', id: id, name: "x", roles: []string{"r"}}),
+			c03FmtOp(c03Op{kind: 'C', id: id, name: "x", roles: []string{"r"}, tag: "t"}),
+			c03FmtOp(c03Op{kind: 'C', id: id, name: "y", roles: []string{"s"}, tag: "t"}),
+			c03FmtOp(c03Op{kind: 'u', id: id, name: "y", roles: []string{"r", "s"}, chk: "nr"}),
+			c03FmtOp(c03Op{kind: 'u', id: id, name: "x", roles: []string{"s"}, chk: "xz"}),
+			c03FmtOp(c03Op{kind: 'U', id: id, name: "x", roles: []string{"r"}, tag: "u", chk: "*"}),
+			c03FmtOp(c03Op{kind: 'd', id: id}),
+			c03FmtOp(c03Op{kind: 'D', id: id}))
 	}
-	rec(nil, 4)
+	c03Enumerate(out, "h "+csList([]string{"x", "y", "r", "s"})+" "+c03Schemas[3].wire(), alphabet, 4)
 }
